@@ -1577,6 +1577,49 @@ func c11Forwarding(p *Program, r *Report, m *vmModel) {
 					}
 				}
 			}
+			if good {
+				// ... nor inside a helper that produced the value the method is looked up on
+				var src func(v ssa.Value, d int) *ssa.Function
+				src = func(v ssa.Value, d int) *ssa.Function {
+					if d > 4 {
+						return nil
+					}
+					switch x := v.(type) {
+					case *ssa.Extract:
+						return src(x.Tuple, d+1)
+					case *ssa.Call:
+						if callee := staticCallee(x); callee != nil && callee.Pkg == h.Pkg && reflectMethod(x) == "" && len(callee.Blocks) > 0 {
+							return callee
+						}
+					case *ssa.Phi:
+						for _, e := range x.Edges {
+							if f := src(e, d+1); f != nil {
+								return f
+							}
+						}
+					case *ssa.UnOp:
+						if al, ok := x.X.(*ssa.Alloc); ok {
+							for _, ref := range *al.Referrers() {
+								if st, ok := ref.(*ssa.Store); ok && st.Addr == ssa.Value(al) {
+									if f := src(st.Val, d+1); f != nil {
+										return f
+									}
+								}
+							}
+						}
+					}
+					return nil
+				}
+				if helper := src(first.Call.Args[0], 0); helper != nil {
+					for _, b := range helper.Blocks {
+						for _, in := range b.Instrs {
+							if e, ok := in.(*ssa.Call); ok && reflectMethod(e) == "Elem" && dominatedByKind(e.Block(), 22) {
+								good = false
+							}
+						}
+					}
+				}
+			}
 			n++
 			r.Check(good, "C11.R6", h.Name()+"|method lookup first", p.Pos(h.Pos()), "Value.MethodByName on the value precedes the pointer indirection and the field lookup", "the method lookup on the value itself does not come first: methods with pointer receivers are not found on pointers")
 		}
